@@ -17,6 +17,10 @@ func main() {
 		usage()
 	}
 	id := os.Args[1]
+	if id == "__reduce" {
+		props.ReduceCLI(os.Args[2:])
+		return
+	}
 	if id == "__worker" {
 		core.WorkerMain()
 		return
